@@ -290,6 +290,25 @@ impl Monitor for M {
         } else {
             ctx.obs("new.payload_length_ok");
         }
+        // every other case constructs a same-shaped twin (same kind, lengths, byte order; other content)
+        // between building the message and serialising it: the message still writes its own payload
+        if ctx.index % 2 == 1 {
+            let mut tw = crate::gen_msg::twin(&built);
+            tw.storage_header = None;
+            let tw_conf = MessageConfig {
+                version: conf.version,
+                counter: conf.counter.wrapping_add(1),
+                endianness: conf.endianness,
+                ecu_id: conf.ecu_id.clone(),
+                session_id: conf.session_id,
+                timestamp: conf.timestamp,
+                payload: tw.payload.clone(),
+                extended_header_info: ext_cfg.clone(),
+            };
+            let sh3 = sh.clone();
+            let _ = guarded(move || Message::new(tw_conf, sh3));
+            ctx.obs("new.twin_constructed_in_between");
+        }
         let bytes = match guarded(|| (built.as_bytes(), built.byte_len())) {
             Ok(x) => x,
             Err(p) => {
@@ -305,6 +324,39 @@ impl Monitor for M {
             ctx.violation("new.serialised_size", &discr, || detail(format!("serialised {} != reference {}", bytes.len() - sh_len, hl + ps)));
         } else {
             ctx.obs("new.byte_len_ok");
+        }
+        // the serialised payload is the configuration's payload (not some other message's)
+        {
+            let mut want_payload = vec![];
+            match &conf.payload {
+                PayloadContent::Verbose(a) => {
+                    for x in a {
+                        refcodec::encode_argument(&mut want_payload, x, be);
+                    }
+                }
+                PayloadContent::NonVerbose(id, d) => {
+                    want_payload.extend_from_slice(&if be { id.to_be_bytes() } else { id.to_le_bytes() });
+                    want_payload.extend_from_slice(d);
+                }
+                PayloadContent::ControlMsg(c, d) => {
+                    want_payload.push(refcodec::service_id_byte(c));
+                    want_payload.extend_from_slice(d);
+                }
+                PayloadContent::NetworkTrace(sl) => {
+                    for d in sl {
+                        let w: u32 = 0x400;
+                        want_payload.extend_from_slice(&if be { w.to_be_bytes() } else { w.to_le_bytes() });
+                        let l = d.len() as u16;
+                        want_payload.extend_from_slice(&if be { l.to_be_bytes() } else { l.to_le_bytes() });
+                        want_payload.extend_from_slice(d);
+                    }
+                }
+            }
+            if bytes.len() >= sh_len + hl && bytes.len() - sh_len - hl == want_payload.len() && bytes[sh_len + hl..] != want_payload[..] {
+                ctx.violation("new.serialises_its_own_payload", &discr, || detail(format!("payload bytes {} differ from the configuration's payload {}", hex_trunc(&bytes[sh_len + hl..], 60), hex_trunc(&want_payload, 60))));
+            } else {
+                ctx.obs("new.own_payload_ok");
+            }
         }
         if built.storage_header != sh {
             ctx.violation("new.storage_header_kept", &discr, || detail("storage header altered".into()));
@@ -406,7 +458,7 @@ impl Monitor for M {
 
     fn describe(&self, ctx: &Ctx) -> J {
         super::describe(
-            "per case: 6 well-formed arguments (all 19 kinds, VARI on/off, texts with multi-byte scalars, 1 in 30 with 60 KB data) for the length clause; one MessageConfig built from a generated message: every payload kind x optional ECU/session/timestamp x byte order, extended-header info matching the payload (60 %), absent (20 %) or of an arbitrary message type (20 %, unrepresentable combinations are checked for the length/flag clauses only), with/without a storage header, then add_storage_header with a given time (2/3) or the clock (1/3); every 8th case builds a configuration with one deliberately ill-formed argument (name/unit presence not matching the flag, stray fixed-point data, value of another width) and checks the recorded lengths against the constructor's own serialisation; 1 in 211 configurations has one of the 16 largest declarable lengths; every 64th case additionally enumerates {bool,f32,f64} x all 15 value variants for valid(). distinct = (clause, payload kind, ext present, byte order, storage variant, optional-field flags) / (kind, VARI, size bucket); all non-trivial",
+            "per case: 6 well-formed arguments (all 19 kinds, VARI on/off, texts with multi-byte scalars, 1 in 30 with 60 KB data) for the length clause; one MessageConfig built from a generated message: every payload kind x optional ECU/session/timestamp x byte order, extended-header info matching the payload (60 %), absent (20 %) or of an arbitrary message type (20 %, unrepresentable combinations are checked for the length/flag clauses only), with/without a storage header, then add_storage_header with a given time (2/3) or the clock (1/3); every other case constructs a same-shaped twin between building a message and serialising it (the serialised payload is compared with the configuration's own payload); every 8th case builds a configuration with one deliberately ill-formed argument (name/unit presence not matching the flag, stray fixed-point data, value of another width) and checks the recorded lengths against the constructor's own serialisation; 1 in 211 configurations has one of the 16 largest declarable lengths; every 64th case additionally enumerates {bool,f32,f64} x all 15 value variants for valid(). distinct = (clause, payload kind, ext present, byte order, storage variant, optional-field flags) / (kind, VARI, size bucket); all non-trivial",
             &["representable = extended header absent => non-verbose payload; control payload <=> control type; network-trace payload <=> network-trace type; verbose payload => any other type", "NOAR is not checked for non-verbose/control payloads (it carries no meaning there)", "clock variant: seconds must lie between clock readings taken before and after the call"],
             &[("arglen.ok", super::scaled(ctx, 100000)), ("new.parse_back_ok", super::scaled(ctx, 20000)), ("new.parse_back_ok.networktrace", 500), ("new.parse_back_ok.control", 500), ("add_storage_header.given_ok", super::scaled(ctx, 5000)), ("add_storage_header.clock_ok", super::scaled(ctx, 2000)), ("add_storage_header.default_ecu_ok", 1000), ("valid.ok", 45)],
         )
